@@ -201,7 +201,11 @@ func vxNativeRun() bool { return true }
 func vxDTLSServerName() string { return "" }
 
 func vxConcretize(x, _, _ int) int { return x }
-func vxGuardsOff()                 {}
+
+// vxLoopCut enables loop-cut induction in the symbolic run; natively the loop simply runs.
+func vxLoopCut(_, _ string) {}
+
+func vxGuardsOff() {}
 
 // vxMutexHeld reports whether mu is currently locked.
 func vxMutexHeld(mu *sync.Mutex) bool {
